@@ -399,6 +399,8 @@ impl Connection {
             let close_result = self.channel0.close_connection();
 
             // wait for the I/O thread to end, and return its panic or error.
+            #[cfg(amiquip_verif)]
+            crate::verif::point(crate::verif::Point::BeforeJoin);
             join_handle.join().map_err(|_| Error::IoThreadPanic)??;
 
             // join ended cleanly; return the result of closing the connection.
@@ -411,6 +413,9 @@ impl Connection {
         }
     }
 }
+
+#[cfg(amiquip_verif)]
+pub(crate) use self::amqp_url::verif_decode;
 
 mod amqp_url {
     use super::*;
@@ -530,6 +535,20 @@ mod amqp_url {
             }
             _ => InvalidUrlSchemeSnafu { url: url.clone() }.fail(),
         }
+    }
+
+    /// What `open` would connect with: (is_amqps, host, port, options).
+    #[cfg(amiquip_verif)]
+    pub(crate) fn verif_decode(url: &str) -> Result<(bool, String, u16, ConnectionOptions<Auth>)> {
+        let mut url = Url::parse(url).context(UrlParseSnafu)?;
+        let scheme = populate_host_and_port(&mut url)?;
+        let options = decode(&url)?;
+        Ok((
+            scheme == Scheme::Amqps,
+            url.host_str().unwrap_or("").to_string(),
+            url.port().unwrap_or(0),
+            options,
+        ))
     }
 
     fn decode(url: &Url) -> Result<ConnectionOptions<Auth>> {
